@@ -190,6 +190,10 @@ pub struct EditCase {
     /// index of the definition among the referenced definitions of the text (scaled)
     pub def: u32,
     pub delete: bool,
+    /// 1 = instead of breaking the reference, rename the definition AND every reference to it to a name with
+    /// two consecutive blanks (a consistent respelling: the project stays meaningful)
+    #[serde(default)]
+    pub respell: u8,
 }
 
 /// (line index, name, type) of definitions whose quoted name occurs elsewhere in the text
@@ -280,10 +284,11 @@ fn check_edit(h: &CaseH, c: &EditCase) -> Verdict {
         return Verdict::Pass;
     }
     let (line, name, ty) = defs[(c.def as usize) % defs.len()].clone();
-    let edited = apply_def_edit(&text, line, &name, c.delete);
-    let what = format!("{} with definition {:?} ({}) {}", if c.bld.is_some() { "generated project" } else { c.file.trim_start_matches("/repo/hulc_tests/tests/") }, name, ty, if c.delete { "removed" } else { "renamed" });
-    h.class(&format!("edit/{}/{}", if c.delete { "delete" } else { "rename" }, ty));
-    h.nontrivial(fp(&(c.file.clone(), line, c.delete)));
+    let edited = if c.respell == 1 { text.replace(&format!("\"{}\"", name), &format!("\"{}  bis\"", name)) } else { apply_def_edit(&text, line, &name, c.delete) };
+    let how = if c.respell == 1 { "respelt with two blanks everywhere" } else if c.delete { "removed" } else { "renamed" };
+    let what = format!("{} with definition {:?} ({}) {}", if c.bld.is_some() { "generated project" } else { c.file.trim_start_matches("/repo/hulc_tests/tests/") }, name, ty, how);
+    h.class(&format!("edit/{}/{}", if c.respell == 1 { "respell" } else if c.delete { "delete" } else { "rename" }, ty));
+    h.nontrivial(fp(&(c.file.clone(), line, c.delete, c.respell)));
     match catch(|| convert_any(&path, &edited)) {
         Ok(Err(e)) => {
             h.class("outcome/error");
@@ -297,7 +302,7 @@ fn check_edit(h: &CaseH, c: &EditCase) -> Verdict {
                 return v;
             }
             // the references that pointed to the renamed/removed definition must not have been dropped silently
-            if ty == "SPACE-CONDITIONS" || ty == "SYSTEM-CONDITIONS" {
+            if c.respell == 0 && (ty == "SPACE-CONDITIONS" || ty == "SYSTEM-CONDITIONS") {
                 // spaces that name it in the source
                 let key = if ty == "SPACE-CONDITIONS" { "SPACE-CONDITIONS" } else { "SYSTEM-CONDITIONS" };
                 let mut spaces = vec![];
@@ -335,7 +340,7 @@ fn check_edit(h: &CaseH, c: &EditCase) -> Verdict {
 
 pub fn run(args: &Args) -> ! {
     let ctx = Ctx::new("C02", "exploration", args);
-    ctx.rule("real: all shipped .ctehexml (parse_with_catalog) and legacy .cte (Data::new + catalogue) projects; generated: typed buildings printed to .ctehexml (half with a systems section transplanted from a shipped project); edits: each of those with ONE definition that is referenced elsewhere renamed or removed (material, layers, construction, glass, frame, gap, polygon, floor, space, wall, day/week/year schedule, space/system conditions; quick: seeded slice, thorough: every referenced definition of every real project). Oracle: closure computed by the harness (unique ids per collection, every reference resolves, no nil id, bemodel::check empty), for generated projects every link the source declares is present in the model, for edits: Err, or Ok and closed and no reference to the edited definition silently dropped. Non-trivial: project with windows and schedules; edit of a definition that is actually referenced.");
+    ctx.rule("real: all shipped .ctehexml (parse_with_catalog) and legacy .cte (Data::new + catalogue) projects; generated: typed buildings printed to .ctehexml (half with a systems section transplanted from a shipped project); edits: each of those with ONE definition that is referenced elsewhere renamed or removed, or consistently respelt (definition and every reference) with two consecutive blanks in the name (material, layers, construction, glass, frame, gap, polygon, floor, space, wall, day/week/year schedule, space/system conditions; quick: seeded slice, thorough: every referenced definition of every real project). Oracle: closure computed by the harness (unique ids per collection, every reference resolves, no nil id, bemodel::check empty), for generated projects every link the source declares is present in the model, for edits: Err, or Ok and closed and (broken references) no reference to the edited definition silently dropped. Non-trivial: project with windows and schedules; edit of a definition that is actually referenced.");
     ctx.assume("names are unique per kind inside one project (HULC guarantees it)");
     ctx.replay_regressions(replay_one);
     let files = real_files();
@@ -353,14 +358,15 @@ pub fn run(args: &Args) -> ! {
             Tier::Thorough => {
                 for d in 0..n {
                     for delete in [false, true] {
-                        cases.push(EditCase { file: f.clone(), bld: None, def: d as u32, delete });
+                        cases.push(EditCase { file: f.clone(), bld: None, def: d as u32, delete, respell: 0 });
                     }
+                    cases.push(EditCase { file: f.clone(), bld: None, def: d as u32, delete: false, respell: 1 });
                 }
             }
             Tier::Quick => {
-                for k in 0..12u64 {
+                for k in 0..18u64 {
                     let d = mix(ctx.seed(), f, k) % n as u64;
-                    cases.push(EditCase { file: f.clone(), bld: None, def: d as u32, delete: k % 2 == 1 });
+                    cases.push(EditCase { file: f.clone(), bld: None, def: d as u32, delete: k < 12 && k % 2 == 1, respell: u8::from(k >= 12) });
                 }
             }
         }
@@ -369,10 +375,10 @@ pub fn run(args: &Args) -> ! {
     ctx.run_prop(
         "edited_generated",
         ctx.tier().pick(600, 20_000),
-        || (gb::bld(), any::<u32>(), any::<bool>()).prop_map(|(b, def, delete)| EditCase { file: String::new(), bld: Some(Box::new(b)), def, delete }),
+        || (gb::bld(), any::<u32>(), any::<bool>(), prop_oneof![2 => Just(0u8), 1 => Just(1u8)]).prop_map(|(b, def, delete, respell)| EditCase { file: String::new(), bld: Some(Box::new(b)), def, delete: delete && respell == 0, respell }),
         check_edit,
     );
-    for c in ["real/converted", "edited_real/outcome/error", "edited_generated/outcome/error", "generated/with-systems-section"] {
+    for c in ["real/converted", "edited_real/outcome/error", "edited_generated/outcome/error", "edited_generated/edit/respell/MATERIAL", "edited_real/edit/respell/MATERIAL", "generated/with-systems-section"] {
         ctx.require_class(c);
     }
     ctx.finish()
